@@ -818,3 +818,9 @@ package saml
 //@    return secondsNs(timePartSeconds(durationRegexp.FindStringSubmatch(string(text))[5])) <= 1000000000000000 }
 //@ contract (*Duration).UnmarshalText
 //@ ensures[C15] value: err == nil && text != nil && secondsBounded(text) ==> int64(*d) == durationOf(text)
+
+//@ -- the IdP calls back into its ServiceProviderProvider: callers must not hold a lock while entering it (C20)
+//@ contract (*IdentityProvider).ServeIDPInitiated
+//@ requires[C20] no_lock_held: NoLocksHeld()
+//@ contract (*IdentityProvider).ServeSSO
+//@ requires[C20] no_lock_held: NoLocksHeld()
